@@ -101,7 +101,8 @@ func (w *c17bWorld) sinks() {
 	}()
 	go func() {
 		for {
-			if _, ok := <-sm; !ok {
+			_, ok := <-sm
+			if !ok {
 				return
 			}
 		}
